@@ -8,6 +8,7 @@ import re
 
 from vlib import core
 from checks import c03
+from checks import c02_probe as probe
 
 META = {
     "harness_bins": ["nkeval", "c02"],
@@ -112,11 +113,11 @@ def run_skeletons(ck, types, exe_model, label):
     rc, srcs, err = core.run_sharded(exe_model, ["src"], types)
     if rc:
         ck.obligation("model-run:src:" + label, "internal", False, "rc=%s %s" % (rc, err))
-        return
+        return [], []
     rc, impl, err = core.run_sharded(core.harness_bin("c02"), [], srcs)
     if rc:
         ck.obligation("impl-run:c02:" + label, "internal", False, "rc=%s %s" % (rc, err))
-        return
+        return [], []
     parsed, idx = [], []
     h2_bad = [srcs[i] for i, line in enumerate(impl) if line.startswith("T ") and not line.endswith("\tH 1")]
     ck.obligation("hook-H2-effective:" + label, "internal", not h2_bad,
@@ -134,8 +135,9 @@ def run_skeletons(ck, types, exe_model, label):
     rc, model, err = core.run_sharded(exe_model, ["skel"], parsed)
     if rc:
         ck.obligation("model-run:skel:" + label, "internal", False, "rc=%s %s" % (rc, err))
-        return
+        return [], []
     shown = 0
+    mismatching = []
     for i, tsx, mline in zip(idx, parsed, model):
         f = impl[i].split("\t")
         m = mline.split("\t")
@@ -162,11 +164,101 @@ def run_skeletons(ck, types, exe_model, label):
             ck.obligation("correspondence:skeleton-full-contract", "correspondence", False,
                           "type %s\nimpl  %s\nmodel %s" % (srcs[i], f[1], m[0]))
         if m[1] != f[2]:
+            mismatching.append(tsx)
             ck.obligation("correspondence:skeleton-static-contract", "correspondence", False,
                           "type %s\nimpl  %s\nmodel %s" % (srcs[i], f[2], m[1]))
         if shown < 3 and "all" in tsx and f[1][2:] != f[2][2:]:
             ck.sample({"type": srcs[i], "contract": f[1][2:300], "static_contract": f[2][2:300]})
             shown += 1
+    return mismatching, [(tsx, srcs[i]) for i, tsx in zip(idx, parsed)]
+
+
+# ----------------------------------------------------------------------------- probes and search
+
+def parsed_and_skeletons(exe_model, sexprs):
+    """[(parsed type s-expr, source, real static skeleton, model static skeleton)] for the types the
+    parser accepts"""
+    rc, srcs, err = core.run_sharded(exe_model, ["src"], sexprs)
+    if rc:
+        return []
+    rc, impl, err = core.run_sharded(core.harness_bin("c02"), [], srcs)
+    if rc:
+        return []
+    rows = [(l.split("\t"), src) for l, src in zip(impl, srcs) if l.startswith("T ")]
+    rc, model, err = core.run_sharded(exe_model, ["skel"], [f[0][2:] for f, _ in rows])
+    if rc:
+        return []
+    return [(f[0][2:], src, f[2], m.split("\t")[1]) for (f, src), m in zip(rows, model) if m.count("\t") == 4]
+
+
+def run_probes(ck, typed, exe_model, label, per_type, rng):
+    """typed: [(parsed type s-expr, source)].  For each type, for (up to per_type of) its negative
+    checks, a program in which the untyped side fails exactly that check; default vs static-full."""
+    rc, negs, err = core.run_sharded(exe_model, ["negs"], [t for t, _ in typed])
+    if rc:
+        ck.obligation("model-run:negs:" + label, "internal", False, "rc=%s %s" % (rc, err))
+        return
+    progs, meta = [], []
+    for (tsx, src), nline in zip(typed, negs):
+        checks = [c for c in nline.split(";") if c]
+        if per_type is not None and len(checks) > per_type:
+            checks = rng.shuffle(checks)[:per_type]
+        t = probe.parse_sx(tsx)
+        for c in checks:
+            kind = c.split(" ")[1].split(":")[0]
+            try:
+                progs.append(probe.probe_program(t, src, c))
+                meta.append((src, c, kind))
+            except probe.Unsynth:
+                ck.hist("probe_" + label, "not-synthesised:" + kind)
+            except (KeyError, IndexError, ValueError) as ex:
+                ck.obligation("probe-synthesis", "internal", False, "%s on %s / %s" % (ex, tsx, c))
+    lines = []
+    for p in progs:
+        lines.append("full\t" + esc(p))
+        lines.append("full,static-full\t" + esc(p))
+    rc, out, err = c03.run_chunked(core.harness_bin("nkeval"), [], lines)
+    if rc:
+        ck.obligation("impl-run:probes:" + label, "internal", False, "rc=%s %s" % (rc, err))
+        return
+    for i, (p, (src, c, kind)) in enumerate(zip(progs, meta)):
+        d, f = out[2 * i], out[2 * i + 1]
+        ck.case(key="probe:" + p, nontrivial=True)
+        if f != "ERR Blame-":
+            # the reference run does not blame the untyped side: the probe is not a valid witness
+            # (the typed side was rejected by the typechecker, or the walk did not reach the check)
+            ck.hist("probe_" + label, "no-reference-blame:" + (f.split(" ")[1] if f.startswith("ERR") else "OK"))
+            continue
+        ck.hist("probe_" + label, "probed:" + kind)
+        if d != f:
+            what = ("evaluates to " + d[3:]) if d.startswith("OK ") else ("fails with " + d[4:])
+            ck.violation("static-contract-misses-negative-check:" + kind,
+                         "`%s` %s although the boundary contract must blame the untyped side (check `%s` of `: %s`; with the full contract: %s)" % (
+                             p if len(p) <= 150 else p[:120] + " ... " + p[-25:], what[:40], c, src[:60], f),
+                         {"program": p, "type": src, "check": c, "default": d, "static_full": f, "expected": "ERR Blame-",
+                          "how_to_replay": "./verif check C02 --replay <this file>"})
+
+
+def search_static_mismatch(ck, mismatching, exe_model):
+    """DESIGN 1.4: the real static contract of these types is not the modelled one.  Localise the
+    difference on the smallest sub-annotations that still differ, and probe every negative check of
+    those under the direct oracle."""
+    rng = core.SplitMix64(ck.seed * 104729 + 5)
+    cands, seen = [], set()
+    for tsx in mismatching[:60]:
+        for c in probe.candidates(probe.parse_sx(tsx)):
+            k = probe.show_sx(c)
+            if k not in seen:
+                seen.add(k)
+                cands.append(k)
+    rows = parsed_and_skeletons(exe_model, cands)
+    differing = sorted(((probe.size(probe.parse_sx(t)), t, src) for t, src, real, model in rows if real != model))
+    ck.coverage["search_candidates"] = len(cands)
+    ck.coverage["search_differing_candidates"] = len(differing)
+    focus = [(t, src) for _, t, src in differing[:40]]
+    for t, src in focus[:3]:
+        ck.sample({"search_focus_type": src})
+    run_probes(ck, focus, exe_model, "search", None, rng)
 
 
 # ----------------------------------------------------------------------------- behavioural tie
@@ -377,14 +469,22 @@ def run(ck):
             continue
         seen.add(t)
         types.append(t)
-    run_skeletons(ck, types, exe_model, "generated")
+    mismatching, parsed_types = run_skeletons(ck, types, exe_model, "generated")
     ck.coverage["generated_types"] = nt
+    if mismatching:
+        search_static_mismatch(ck, mismatching, exe_model)
+    # routine probes (also keeps the search machinery exercised): for a selection of the generated
+    # types, programs in which the untyped side fails ONE negative check of the annotation
+    sel = [x for x in parsed_types if "(fun" in x[0]]
+    sel = rng.shuffle(sel)[:(6000 if thorough else 250)]
+    run_probes(ck, sel, exe_model, "generated", 3, rng)
     # behavioural tie
     nb = 20000 if thorough else 500
     cases = [gen_beh(rng.fork()) for _ in range(nb)]
     run_behaviour(ck, cases, exe_model, "generated")
     ck.coverage["boundary_programs"] = nb
     ck.coverage["rule"] = ("syntactic case = a closed type generated from all constructors (ground, Dyn, Array, arrows at every polarity, record rows with closed/Dyn/variable tails, both dictionaries, enum rows with optional tail variable, forall of the three kinds incl. same-name and cross-kind shadowing, an opaque contract), depth <= 5, printed to source, parsed by the real parser; compared: skeleton of Type::contract and of Type::contract_static vs model. "
+                           "probe = for a generated type T and one of its negative checks (value path + kind, from the model), `let v : T = <typed implementation synthesised from T> in <untyped context>` in which the two sides walk the path and the untyped side finally hands over a value failing exactly that check (checks/c02_probe.py); valid when the static-full run blames negatively, then the default run must too; when the skeleton of a real static contract differs from the model the same probes are run for every negative check of the smallest differing sub-annotations (search); "
                            "behavioural case = `let f : A -> B = fun x => std.deep_seq (x | Dyn) (res | B) in f arg`, the same with `|`, `let f : (A -> B) -> C = fun cb => std.deep_seq (cb (a0 | A)) (c0 | C) in f <callback | data>`, `let x : T = (v | T) in x` with first-order A, B, C generated as in C03 and arg/res/a0/c0 members or members mutated at one position (subvalue kind, field dropped/added/renamed, tag/arity); each run in default and static-full mode; plus the hand-written polymorphic corpus; non-trivial = has an arrow or a forall")
     ck.coverage["partial"] = "simplify_equiv is proved for first-order data and first-order arrows only; higher-order/polymorphic: simplify_keeps_negative + direct oracle (default vs static-full)"
     ck.trusted += ["extraction: ExtrOcamlBasic + ExtrOcamlNativeString", "hook H2 (full contracts for static annotations) via nkeval flag static-full",
